@@ -173,3 +173,28 @@ class DeprecatedFixToFloat64:
     def ensures_is_the_scaled_reading_of_the_word(signed, n_frac, word, result):
         v = ite(signed and word >= 2 ** (64 - 1), word - 2 ** 64, word)
         return result == real(v) * 2.0 ** (-n_frac)
+
+
+# ---- the numpy converter's format: limits and element type chosen by its constructor (the element-wise arithmetic is numpy's: bounded) -----
+from pyvc.values import TRec as _TRec16   # noqa: E402
+
+
+@contract("rig/type_casts.py::NumpyFloatToFixConverter.__init__")
+class NumpyConverterFormat:
+    """the array converter saturates at exactly the limits of the format named - [-2**(n-1), 2**(n-1) - 1] signed, [0, 2**n - 1]
+    unsigned -, accepts exactly the widths that are whole numpy element types (8, 16, 32, 64) and remembers the fraction bits given"""
+    properties = ("C16",)
+    params = dict(self=_TRec16("NumpyFloatToFixConverter"), signed=TBool(), n_bits=TInt(1, 128), n_frac=TInt(-64, 128))
+    raises = {"ValueError": None}
+    assumptions = ["the element type is looked up in the class's own table of numpy types (opaque objects); 2**k over the four accepted widths"]
+
+    def native(x):
+        raise __import__("pyvc.replay", fromlist=["OutsideHarness"]).OutsideHarness()
+
+    def raises_ValueError(n_bits):
+        return not (n_bits == 8 or n_bits == 16 or n_bits == 32 or n_bits == 64)
+
+    def ensures_limits_of_the_format_named(self_post, signed, n_bits, n_frac):
+        return ((n_bits == 8 or n_bits == 16 or n_bits == 32 or n_bits == 64)
+                and self_post.max_value == fmt_max(signed, n_bits) and self_post.min_value == fmt_min(signed, n_bits)
+                and self_post.n_frac == n_frac)
